@@ -28,6 +28,27 @@ SEP = '.'
 NS_DEFAULT = {'help': None, 'required': True, 'dynamic': False, 'valid_type': None, 'populate_defaults': True}
 
 
+class _Either:
+    """Stands for a boolean property the statement does not determine: equal to True and to False."""
+
+    def __eq__(self, other: Any) -> bool:
+        return isinstance(other, (bool, _Either))
+
+    def __ne__(self, other: Any) -> bool:
+        return not self.__eq__(other)
+
+    __hash__ = object.__hash__
+
+    def __repr__(self) -> str:
+        return 'True-or-False'
+
+    def __deepcopy__(self, memo: Any) -> '_Either':
+        return self
+
+
+EITHER = _Either()
+
+
 def leaf(i: int) -> Dict[str, Any]:
     return {'help': f'h{i}', 'required': bool(i % 2), 'valid_type': (int, str, None)[i % 3]}
 
@@ -125,7 +146,9 @@ def expected(tree: Dict[str, Any], top_attrs: Dict[str, Any], include: Any, excl
     attrs = dict(top_attrs)
     attrs.update(options)
     if options.get('valid_type') is not None and 'dynamic' not in options:
-        attrs['dynamic'] = True  # the documented effect of setting a valid_type; otherwise the source's / the option's value
+        # the documented effect of setting a valid_type is dynamic=True, the statement says "the source namespace's properties
+        # unless overridden": either answer is accepted (EITHER compares equal to both)
+        attrs['dynamic'] = EITHER
     if namespace is None:
         dest.update(selected)
         return {'attrs': attrs, 'tree': dest}
